@@ -36,7 +36,7 @@ RULE = ('one run = 2-4 committer tasks doing read-modify-write on shared '
         'commits on a shared cell and >= 1 switch; distinct = schedule '
         'trace hash')
 BUDGET = {'quick': {'runs': 6000, 'wall': 300, 'chunk': 20},
-          'thorough': {'runs': 450000, 'wall': 1800, 'chunk': 100}}
+          'thorough': {'runs': 450000, 'wall': 1200, 'chunk': 100}}
 ASSUMPTIONS = [
     'conflict resolution results are judged by C10; here a merging class '
     'only has to keep every token of both sides',
